@@ -42,10 +42,10 @@ CHECKS = {
     "C15": {
         "text": "Partial, static, on MergeSource::poll_next and TaggedSource::poll_next: a payload polled from a source flows to the return value and its holder is never "
                 "overwritten or dropped while it may hold it (flow-sensitive: catches a deleted `break`); the tag of every yielded item is the source's own id field; "
-                "Ready(None) is returned only under sources.is_empty(), and a source is removed only on its own Ready(None). Fairness, cursor arithmetic and per-sender "
-                "order are NOT decided (value-level).",
+                "Ready(None) is returned only under sources.is_empty(), and a source is removed only on its own Ready(None); every compaction of a source list adjusts the poll cursor inside the retain predicate (sibling agreement of the "
+                "three merged sources - a necessary condition of 'served within one round'). The cursor arithmetic itself and per-sender order are NOT decided (value-level).",
         "note": "One table exception: the static drop of `out` on the is_empty() return is dynamically infeasible (reason in rules/exceptions_table.py).",
-        "technique": "ownership may-dataflow + dominance rules on rustc MIR",
+        "technique": "ownership may-dataflow + dominance rules + sibling-implementation cross-check on rustc MIR",
     },
     "C27": {
         "text": "Static, near-complete for the stated clause: the runner uses the flag + AtomicWaker pattern, whose proof obligations are ordering facts on a handful of "
